@@ -61,3 +61,58 @@ pub fn search(threads: usize, want_e: usize, want_s: usize) {
     });
     println!("{}", serde_json::to_string_pretty(&json!({"e_ge_n": *out_e.lock().unwrap(), "small_s": *out_s.lock().unwrap()})).unwrap());
 }
+
+/// scalars k whose point [k]G has leading / trailing zero bytes in x or y (DER INTEGER shortening and
+/// fixed-offset slicing cases). Library arithmetic is used only to scan; every hit is confirmed by the reference.
+pub fn zero_coord_search(threads: usize) {
+    use gm_sm2::verif_hooks as hk;
+    let found: Mutex<std::collections::BTreeMap<String, String>> = Mutex::new(Default::default());
+    let classes: Vec<String> = ["x", "y"].iter().flat_map(|c| ["lead", "trail"].iter().flat_map(move |e| (1..=3).map(move |n| format!("{}_{}_{}", c, e, n)))).collect();
+    let total = classes.len();
+    std::thread::scope(|sc| {
+        for t in 0..threads {
+            let found = &found;
+            sc.spawn(move || {
+                let mut p = Prng::new(0xc0ffee, &format!("zc-{}", t));
+                let c = r2::curve();
+                let mut k = crate::sm2x::rand_scalar(&mut p, &c.n);
+                let mut n_iter = 0u64;
+                loop {
+                    n_iter += 1;
+                    if n_iter % 4096 == 0 && found.lock().unwrap().len() >= total {
+                        break;
+                    }
+                    if n_iter > (1 << 27) {
+                        break;
+                    }
+                    k += 1u32;
+                    let lk = r2::to_limbs(&k);
+                    let a = gm_sm2::p256_ecc::g_mul(&lk).to_affine_point();
+                    let x = crate::mon::limbs_to_be(&hk::fp_from_mont(&a.x));
+                    let y = crate::mon::limbs_to_be(&hk::fp_from_mont(&a.y));
+                    for (cn, v) in [("x", &x), ("y", &y)] {
+                        let lead = v.iter().take_while(|&&b| b == 0).count().min(3);
+                        let trail = v.iter().rev().take_while(|&&b| b == 0).count().min(3);
+                        for (en, cnt) in [("lead", lead), ("trail", trail)] {
+                            if cnt == 0 {
+                                continue;
+                            }
+                            let key = format!("{}_{}_{}", cn, en, cnt);
+                            let mut f = found.lock().unwrap();
+                            if !f.contains_key(&key) {
+                                // confirm with the reference
+                                let pt = r2::mul(&k, &r2::g()).unwrap();
+                                if r2::b32(&pt.0) == x && r2::b32(&pt.1) == y {
+                                    f.insert(key, hex::encode(r2::b32(&k)));
+                                }
+                            }
+                        }
+                    }
+                }
+            });
+        }
+    });
+    let f = found.lock().unwrap();
+    let list: Vec<serde_json::Value> = f.iter().map(|(k, v)| json!({"class": k, "k": v})).collect();
+    println!("{}", serde_json::to_string_pretty(&json!({"zero_coord": list})).unwrap());
+}
